@@ -47,7 +47,9 @@ def gen(rng):
         wd = L['work'][vol]
         aux = home + '/aux' if vol == '/' else vol + '/aux'
         cls = rng.choice(['ok', 'ok', 'ok', 'missing', 'dot', 'badutf8', 'immutable', 'rodir', 'emptystr', 'infofail'])
-        nm = 'a%d' % i
+        # a '%' or braces in the name must not matter to whatever builds the diagnostics
+        sfx = rng.choice(['', '', '', ' 50%', '%s', '%d', '{0}', '%(x)s'])
+        nm = 'a%d' % i + sfx
         if cls == 'ok':
             p = wd + '/' + nm
             G.make_entry(rng, p, rng.choice(['file', 'dir', 'link_dangling', 'empty']), steps, aux)
@@ -56,13 +58,13 @@ def gen(rng):
             if '' in args:
                 p = wd + '/missing%d' % i
         elif cls == 'missing':
-            p = wd + '/missing%d' % i
+            p = wd + '/missing%d' % i + sfx
         elif cls == 'dot':
             d = wd + '/dotdir%d' % i
             steps.append(['d', d, 0o755])
             p = d + '/' + rng.choice(['.', '..', './', '../'])
         elif cls == 'badutf8':
-            p = wd + '/bad%d\udcff' % i
+            p = wd + '/bad%d\udcff' % i + sfx
             G.make_entry(rng, p, rng.choice(['file', 'emptydir']), steps, aux)
         elif cls == 'infofail':
             # a hard error while this argument's .trashinfo is created (whatever trash directory is tried)
@@ -72,11 +74,11 @@ def gen(rng):
             faults.append({'kind': 'cond', 'what': 'name_errno', 'ops': rng.choice([['open_w'], ['open_w'], ['write', 'fwrite'], ['close']]) ,
                            'basename': 'nf%d.trashinfo' % i, 'prefix': 'nf%d' % i, 'suffix': '.trashinfo', 'errno': rng.choice([E.ENOSPC, E.EDQUOT, E.EROFS, E.EIO, E.EACCES])})
         elif cls == 'immutable':
-            p = wd + '/imm%d' % i
+            p = wd + '/imm%d' % i + sfx
             G.make_entry(rng, p, rng.choice(['file', 'dir']), steps, aux)
             faults.append({'kind': 'cond', 'what': 'immutable', 'entry': p})
         else:
-            d = wd + '/rodir%d' % i
+            d = wd + '/rodir%d' % i + sfx
             steps.append(['d', d, 0o555])
             p = d + '/inside'
             G.make_entry(rng, p, 'file', steps, aux)
